@@ -447,11 +447,17 @@ def a_chord(me, d):
         cls = [chord_label_class(l) for l in labs]
         if labs and any(x == INVALID for x in cls):
             bad = [l for l, x in zip(labs, cls) if x == INVALID][0]
-            c.must_raise += [("chord.%s[%s labels]" % (m, side), (lambda m=m, labs=labs: getattr(ch, m)(labs, labs)),
+            # the other argument is an all-'N' list of the same length, so that the side under test is the only
+            # place the malformed label can be rejected from
+            other = ["N"] * len(labs)
+            pair = (lambda labs=labs, other=other: (labs, other)) if side == "ref" else (lambda labs=labs, other=other: (other, labs))
+            c.must_raise += [("chord.%s[%s labels]" % (m, side), (lambda m=m, pair=pair: getattr(ch, m)(*pair())),
                               "malformed chord label %r" % bad) for m in cmp_names]
             c.verdict, c.why = (INVALID if c.verdict != UNSPEC else UNSPEC), c.why + "; malformed chord label %r" % bad
         elif labs and all(x == VALID for x in cls):
-            c.must_return += [("chord.%s[%s labels]" % (m, side), (lambda m=m, labs=labs: getattr(ch, m)(labs, labs))) for m in cmp_names]
+            other = ["N"] * len(labs)
+            pair = (lambda labs=labs, other=other: (labs, other)) if side == "ref" else (lambda labs=labs, other=other: (other, labs))
+            c.must_return += [("chord.%s[%s labels]" % (m, side), (lambda m=m, pair=pair: getattr(ch, m)(*pair()))) for m in cmp_names]
     if ivv == UNSPEC:
         c.must_return, c.must_raise = [], [x for x in c.must_raise]
         return c
